@@ -4,3 +4,6 @@
 (define-fun blk.cand ((t Int) (si Int)) Int
   (let ((i (+ t (- si (mod si 65536)))))
     (ite (>= i si) (- i 65536) i)))
+; block buffer size for a block-size index (4..7 modern, 3 legacy 8 MiB)
+(define-fun blk.size ((b Int)) Int (ite (= b 4) 65536 (ite (= b 5) 262144 (ite (= b 6) 1048576 (ite (= b 7) 4194304 (ite (= b 3) 8388608 0))))))
+(define-fun blk.validIndex ((b Int)) Bool (or (= b 3) (and (<= 4 b) (<= b 7))))
